@@ -33,6 +33,9 @@ type scnCfg struct {
 	Parallel int32
 	Replicas string
 	FailBy   string // failure scenario: "command" or "restarts" or "timeout"
+	// Restarts: before the template changes, the daemon pods of the first nodes have restarted (most on n1):
+	// the canary node choice then depends on the pod list the selection reads
+	Restarts bool
 }
 
 func (c scnCfg) String() string { b, _ := json.Marshal(c); return string(b) }
@@ -47,7 +50,7 @@ func scnDraw(rt *rapid.T, scenario string) scnCfg {
 		// percent replicas are excluded by construction here: the recorded finding C15/canary-list-growth/percent-base-inflated
 		// makes the size of a percent canary depend on the reconcile order, which would make the two runs incomparable
 		Replicas: rapid.SampledFrom([]string{"1", "2"}).Draw(rt, "replicas"),
-		FailBy:   rapid.SampledFrom([]string{"command", "restarts", "timeout"}).Draw(rt, "failBy")}
+		FailBy:   rapid.SampledFrom([]string{"command", "restarts", "timeout"}).Draw(rt, "failBy"), Restarts: rapid.Bool().Draw(rt, "restartHistory")}
 }
 
 // scnWorld builds the world of a scenario (no draws: everything comes from cfg).
@@ -141,6 +144,20 @@ func scnScript(w *World, cfg scnCfg, stop func() bool) (milestones bool) {
 		}
 		return n == len(e.Status.Canary.Nodes)
 	}
+	restartHistory := func() {
+		if !cfg.Restarts {
+			return
+		}
+		for _, p := range w.C.Pods() {
+			var i int
+			if _, err := fmt.Sscanf(oracle.NodeOf(p), "n%d", &i); err != nil || i >= cfg.Nodes {
+				continue // the last node's pod never restarted
+			}
+			for j := 0; j < cfg.Nodes-i+1; j++ {
+				w.C.Restart(p.Namespace, p.Name, 0, "Error")
+			}
+		}
+	}
 	switch cfg.Scenario {
 	case "first-deployment", "migration":
 		rounds(7)
@@ -150,10 +167,12 @@ func scnScript(w *World, cfg scnCfg, stop func() bool) (milestones bool) {
 		rounds(7)
 	case "canary-start":
 		waitFor(deployed, 25)
+		restartHistory()
 		w.editTemplate(k, 'B')
 		rounds(5)
 	case "promotion-validate":
 		waitFor(deployed, 25)
+		restartHistory()
 		w.editTemplate(k, 'B')
 		waitFor(canaryUp, 25)
 		if e := w.C.EDS(k.Namespace, k.Name); e != nil && e.Status.Canary != nil {
@@ -169,10 +188,12 @@ func scnScript(w *World, cfg scnCfg, stop func() bool) (milestones bool) {
 		rounds(8)
 	case "promotion-auto":
 		waitFor(deployed, 25)
+		restartHistory()
 		w.editTemplate(k, 'B')
 		rounds(12)
 	case "failure-rollback":
 		waitFor(deployed, 25)
+		restartHistory()
 		w.editTemplate(k, 'B')
 		waitFor(canaryUp, 25)
 		e := w.C.EDS(k.Namespace, k.Name)
@@ -366,7 +387,7 @@ func scnRun(rec *evid.Rec, cfg scnCfg, faults map[int]sim.FaultKind) *scnResult 
 }
 
 func faultKinds() []sim.FaultKind {
-	return []sim.FaultKind{sim.FaultReject, sim.FaultLostAnswer, sim.FaultCrashBefore, sim.FaultCrashAfter}
+	return []sim.FaultKind{sim.FaultReject, sim.FaultRejectTyped, sim.FaultLostAnswer, sim.FaultCrashBefore, sim.FaultCrashAfter}
 }
 
 // c11Judge compares a faulted run with the failure-free one.
@@ -391,7 +412,7 @@ func c11Judge(rec *evid.Rec, f fataler, cfg scnCfg, base, got *scnResult, plan s
 
 // TestC11Sampled: generated scenario configuration, failure-free run, then sampled single faults and pairs.
 func TestC11Sampled(t *testing.T) {
-	rec := evid.New("TestC11Sampled", "C11", "scenario of the corpus (first deployment, rolling update, canary start, promotion by validation and by time, failure and rollback by command / restart storm / timeout, node removal and taint, settings change, migration from a DaemonSet) with generated size and strategy; failure-free run records K controller API calls (reads included); then faulted re-runs with kind in {rejected, applied-but-answer-lost, process stop before the call, process stop after the call} at sampled positions (and sampled pairs), controllers rebuilt after a stop, followed by failure-free fair rounds; oracle: every safety monitor after every step and final canonical state (pods per node with hash/readiness, status, replica sets) equal to the failure-free run; non-trivial = the fault hit a write; distinct by (config, position, kind)")
+	rec := evid.New("TestC11Sampled", "C11", "scenario of the corpus (first deployment, rolling update, canary start, promotion by validation and by time, failure and rollback by command / restart storm / timeout, node removal and taint, settings change, migration from a DaemonSet) with generated size and strategy; failure-free run records K controller API calls (reads included); then faulted re-runs with kind in {rejected with a generic error, rejected with the API status error typical for the verb (AlreadyExists / Conflict / TooManyRequests / ServerTimeout), applied-but-answer-lost, process stop before the call, process stop after the call} at sampled positions (and sampled pairs), controllers rebuilt after a stop, followed by failure-free fair rounds; oracle: every safety monitor after every step and final canonical state (pods per node with hash/readiness, status, replica sets) equal to the failure-free run; non-trivial = the fault hit a write; distinct by (config, position, kind)")
 	t.Cleanup(func() {
 		if !t.Failed() {
 			rec.Done()
@@ -446,7 +467,7 @@ func TestC11Exhaustive(t *testing.T) {
 		if only != "" && !strings.Contains(only, sc) {
 			continue
 		}
-		cfg := scnCfg{Scenario: sc, Nodes: 3, Affinity: sc == "rolling-update" || sc == "canary-start", MaxUnav: "2", Increase: "2", Parallel: 3, Replicas: "1", FailBy: "command"}
+		cfg := scnCfg{Scenario: sc, Nodes: 3, Affinity: sc == "rolling-update" || sc == "canary-start", MaxUnav: "2", Increase: "2", Parallel: 3, Replicas: "1", FailBy: "command", Restarts: true}
 		if sc == "failure-rollback" {
 			cfg.FailBy = "restarts"
 		}
